@@ -123,3 +123,12 @@ Definition check_conc (c : conc_case) : N :=
     let s := run (run empty setup) (map fst (concat threads)) in
     if obs_eqb (observe s) ob then V_OK else V_MISMATCH
   else V_OK.
+
+(* ---- concurrent phase followed by a sequential tail: setup, threads (as in conc mode 0: only edge
+   creations on nodes that stay, so the state after the phase does not depend on the interleaving
+   except for the ORDER of the adjacency lists), then sequential operations observed after every
+   step.  Adjacency lists left in non-ascending order by the concurrent phase must not matter. *)
+Definition mixed_case := (list op * list (list (op * res)) * list op * list (res * obs))%type.
+Definition check_mixed (c : mixed_case) : N :=
+  let '(setup, threads, tail, os) := c in
+  seq_walk (run (run empty setup) (map fst (concat threads))) tail os.
